@@ -181,6 +181,7 @@ def _build_patches():
     import fasteners
     import fasteners._utils
     import fasteners.process_lock
+    import molli._aux.lock
     import molli.chem.library
     import molli.config
     import molli.storage.backends
@@ -219,6 +220,8 @@ def _build_patches():
         (molli.storage.backends, "Path", K.SimPath),
         (molli.storage.collection, "Path", K.SimPath),
         (molli.chem.library, "Path", K.SimPath),
+        # the lock name is derived from the RESOLVED path: resolution has to see the simulated symbolic links too
+        (molli._aux.lock, "Path", K.SimPath),
     ] + [(m_, "open", K.sim_open) for m_ in storage_mods] + [(m_, "io", io_proxy) for m_ in storage_mods if "io" in vars(m_)] + [
         (molli.storage.backends, "InterProcessReaderWriterLock", SimRWLock),
         (molli.storage.backends, "atexit", SimAtexit),
